@@ -17,11 +17,16 @@ ANCHORS = [("pipefunc/_pipeline/_base.py", ["Pipeline.subpipeline", "_find_nodes
                                             "Pipeline.graph", "Pipeline.topological_generations", "Pipeline.leaf_nodes",
                                             "Pipeline.defaults", "Pipeline.drop"]),
            ("pipefunc/map/_prepare.py", ["prepare_run", "_validate_complete_inputs"]),
-           ("pipefunc/map/_run.py", ["run_map", "_func_kwargs", "_execute_single", "_run_and_process_generation"])]
+           ("pipefunc/map/_run.py", ["run_map", "_func_kwargs", "_execute_single", "_run_and_process_generation",
+                                     "_load_from_store", "_dump_single_output"]),
+           ("pipefunc/map/_run_info.py", ["RunInfo.create", "_compare_to_previous_run_info", "RunInfo.init_store"]),
+           ("pipefunc/_utils.py", ["equal_dicts"])]
 RULE = ("the pipelines of C02 plus extra nullary / all-default / all-bound functions x requested output sets S (every "
         "single output, pairs, random larger sets) x provided name sets I (exact root cut, every arg combination of an "
         "output in S, interior-only, mixed, with surplus, with a missing name, empty) x {subpipeline(I, S), "
-        "map(output_names=S), map(auto_subpipeline=True), plain map}; scalar values, storage='dict', parallel=False; "
+        "map(output_names=S), map(auto_subpipeline=True), plain map} + two maps into ONE run folder (second with "
+        "cleanup=False: same inputs, valid cuts with a changed intermediate, changed / fewer roots); scalar values, "
+        "storage='dict' (file storage for the two-run cases), parallel=False; "
         "non-trivial = >= 2 functions; distinct by (kind, pipeline, I, S)")
 ASSUMPTIONS = list(c02.ASSUMPTIONS) + ["pipelines without MapSpecs (scalar values); storage='dict'; parallel=False",
                                        "call order inside Pipeline.map is not compared (the property speaks of the set of calls)"]
@@ -33,8 +38,13 @@ def emit_case(c) -> str:
     if c["kind"] == "sub":
         return (f"(CSub {pipegen.pipeline_lit(c['p'])} {clist([cstr(x) for x in c['I']])} "
                 f"{clist([cstr(x) for x in c['S']])})")
-    s_lit = copt(c["S"], lambda l: clist([cstr(x) for x in l]))
-    return f"(CMap {pipegen.pipeline_lit(c['p'])} {pipegen.alist_lit(c['inputs'])} {s_lit} {cbool(c['auto'])})"
+    def s_lit(S):
+        return copt(S, lambda l: clist([cstr(x) for x in l]))
+
+    if c["kind"] == "map2":
+        return (f"(CMap2 {pipegen.pipeline_lit(c['p'])} {pipegen.alist_lit(c['inputs'])} {s_lit(c['S'])} {cbool(c['auto'])} "
+                f"{pipegen.alist_lit(c['inputs2'])} {s_lit(c['S2'])} {cbool(c['auto2'])})")
+    return f"(CMap {pipegen.pipeline_lit(c['p'])} {pipegen.alist_lit(c['inputs'])} {s_lit(c['S'])} {cbool(c['auto'])})"
 
 
 def run_impl(c):
@@ -49,13 +59,26 @@ def run_impl(c):
         except Exception as e:  # noqa: BLE001
             return Err(e)
         return Ok(sorted((f.output_name if isinstance(f.output_name, str) else f.output_name[0]) for f in sub.functions))
-    try:
-        with contextlib.redirect_stdout(io.StringIO()):
-            res = pl.map(dict(c["inputs"]), output_names=None if c["S"] is None else set(c["S"]),
-                         auto_subpipeline=c["auto"], storage="dict", parallel=False, show_progress=False)
-    except Exception as e:  # noqa: BLE001
-        return Err(e)
-    return Ok([[[k, canon(v.output)] for k, v in sorted(res.items())], sorted(log.read())])
+    def one_map(inputs, S, auto, **kw):
+        log.clear()
+        try:
+            with contextlib.redirect_stdout(io.StringIO()):
+                res = pl.map(dict(inputs), output_names=None if S is None else set(S), auto_subpipeline=auto,
+                             parallel=False, show_progress=False, **kw)
+        except Exception as e:  # noqa: BLE001
+            return Err(e)
+        return Ok([[[k, canon(v.output)] for k, v in sorted(res.items())], sorted(log.read())])
+
+    if c["kind"] == "map2":     # two maps into ONE run folder, the second with cleanup=False
+        import tempfile
+
+        with tempfile.TemporaryDirectory(prefix="verif_c11_") as folder:
+            r1 = one_map(c["inputs"], c["S"], c["auto"], run_folder=folder)
+            if isinstance(r1, Err):
+                return [r1, None]
+            r2 = one_map(c["inputs2"], c["S2"], c["auto2"], run_folder=folder, cleanup=False)
+        return [r1, r2]
+    return one_map(c["inputs"], c["S"], c["auto"], storage="dict")
 
 
 # ------------------------------------------------------------------ generator
@@ -126,6 +149,91 @@ def _input_sets(rng, pd, S):
     return [(t, list(dict.fromkeys(s))) for t, s in sets]
 
 
+def _two_run_cases(rng, pd, roots, outs):
+    """A full map into a run folder, then a second map into the same folder with cleanup=False: same inputs (the
+    stored results may be reused), a cut with a supplied intermediate of another value, changed / fewer root values."""
+    full = [[n, "v_" + n] for n in roots]
+    out = []
+    prod = {o: f for f in pd["funcs"] for o in f["outs"]}
+    inner = [o for o in outs if any(o in [c for c, _ in g["params"] if c not in g["bound"]] for g in pd["funcs"])]
+    for _ in range(2):
+        r = rng.random()
+        if r < 0.5 and inner:          # supply an intermediate with a NEW value, keep the other roots as they were
+            a = rng.choice(inner)
+            down = [o for o in outs if o != a and o not in prod[a]["outs"]]
+            keep = [kv for kv in full if rng.random() < 0.8]
+            in2 = keep + [[a, "new_" + a]]
+            if rng.random() < 0.5 or not down:
+                S2, auto2, tag = None, True, "two-run-cut-auto"
+            else:
+                S2, auto2, tag = rng.sample(down, rng.randint(1, min(2, len(down)))), rng.random() < 0.3, "two-run-cut"
+        elif r < 0.7:                   # identical inputs, another selection: reuse is legitimate
+            in2 = list(full)
+            S2 = rng.sample(outs, rng.randint(1, min(2, len(outs)))) if rng.random() < 0.7 else None
+            auto2, tag = (S2 is None or rng.random() < 0.3), "two-run-same"
+        elif r < 0.85 and full:         # a root value changed
+            in2 = [list(kv) for kv in full]
+            in2[rng.randrange(len(in2))][1] = "changed"
+            S2, auto2, tag = None, rng.random() < 0.5, "two-run-changed-root"
+        else:                           # fewer roots (the rest keeps defaults or is missing)
+            in2 = [kv for kv in full if rng.random() < 0.6]
+            S2, auto2, tag = ([rng.choice(outs)], False, "two-run-fewer") if rng.random() < 0.5 else (None, True, "two-run-fewer")
+        rng.shuffle(in2)
+        first_S = None if rng.random() < 0.8 else [rng.choice(outs)]
+        out.append({"kind": "map2", "p": pd, "inputs": full, "S": first_S, "auto": False,
+                    "inputs2": in2, "S2": S2, "auto2": auto2, "tag": tag})
+    # targeted: second requests that are valid on their own (checked by a dry run without folder) and supply an
+    # intermediate with a NEW value next to unchanged roots - the stored results of the first run are stale for them
+    try:
+        pl = pipegen.build_cached(pd, slot="gen").pipeline
+    except Exception:  # noqa: BLE001
+        return out
+    byout = {o: f for f in pd["funcs"] for o in f["outs"]}
+    found = 0
+    cands = list(inner)
+    rng.shuffle(cands)
+    for a in cands:
+        if found >= 2:
+            break
+        # functions downstream of a (through unbound parameters), and what they read besides a
+        down, frontier = [], [a]
+        while frontier:
+            x = frontier.pop()
+            for g in pd["funcs"]:
+                if g not in down and any(c == x and c not in g["bound"] for c, _ in g["params"]):
+                    down.append(g)
+                    frontier += g["outs"]
+        if not down:
+            continue
+        target = rng.choice(down)
+        for use_auto in (rng.random() < 0.5, None):
+            S2 = None if use_auto else [rng.choice(target["outs"])]
+            need, stack, seen = set(), list(S2 or [o for g in down for o in g["outs"]]), set()
+            while stack:
+                x = stack.pop()
+                if x == a or x in seen:
+                    continue
+                seen.add(x)
+                g = byout.get(x)
+                if g is None:
+                    need.add(x)
+                else:
+                    stack += [c for c, _ in g["params"] if c not in g["bound"]]
+            in2 = [[a, "new_" + a]] + [[n, "v_" + n] for n in roots if n in need]
+            try:
+                with contextlib.redirect_stdout(io.StringIO()):
+                    pl.map(dict(in2), output_names=None if S2 is None else set(S2), auto_subpipeline=S2 is None,
+                           parallel=False, storage="dict", show_progress=False)
+            except Exception:  # noqa: BLE001
+                continue
+            rng.shuffle(in2)
+            out.append({"kind": "map2", "p": pd, "inputs": full, "S": None, "auto": False,
+                        "inputs2": in2, "S2": S2, "auto2": S2 is None, "tag": "two-run-valid-cut"})
+            found += 1
+            break
+    return out
+
+
 def generate(rng, tier, mult):
     n_pipes = (30 if tier == "quick" else 500) * mult
     cases = []
@@ -165,6 +273,7 @@ def generate(rng, tier, mult):
                 else:
                     cases.append({"kind": "map", "p": pd, "inputs": inputs, "S": None, "auto": True, "tag": tag})
         roots = pipegen.root_names(pd)
+        cases += _two_run_cases(rng, pd, roots, outs)
         cases.append({"kind": "map", "p": pd, "inputs": [[n, "v_" + n] for n in roots], "S": None, "auto": False, "tag": "plain"})
         cases.append({"kind": "sub", "p": pd, "I": ["nope"], "S": [outs[0]], "tag": "unknown"})
         cases.append({"kind": "sub", "p": pd, "I": roots, "S": ["nope"], "tag": "unknown"})
@@ -174,7 +283,7 @@ def generate(rng, tier, mult):
 def nontrivial_key(c):
     if len(c["p"]["funcs"]) < 2:
         return None
-    return (c["kind"], c["p"], c.get("I") or c.get("inputs"), c["S"], c.get("auto"))
+    return (c["kind"], c["p"], c.get("I") or c.get("inputs"), c["S"], c.get("auto"), c.get("inputs2"), c.get("S2"), c.get("auto2"))
 
 
 def distribution(c):
@@ -232,15 +341,39 @@ def _analysis(c):
     return I, S, byname, prod, needed, kept
 
 
+def _is_err(impl_obs):
+    return isinstance(impl_obs, list) and len(impl_obs) == 2 and impl_obs[0] == "err"
+
+
 def finding_id(c, impl_obs, kind):
+    """Known-finding class of a FAILING case, decided from the case structure: the id is returned only when the
+    mechanism of that finding is what makes THIS request fail.  All known findings concern requests that are
+    computable from the provided names; an uncomputable request that is answered, or a wrong value, is never known."""
+    if c["kind"] == "map2":
+        return None                      # stale or wrong values are never known
     I, S, byname, prod, needed, kept = _analysis(c)
-    if needed - kept:
-        return "c11-needed-without-provided-ancestor"
-    if kept - needed:
-        return "c11-cutoff-producer-kept"
-    # the drop loop validates after every single drop: differing defaults of a parameter whose producer is dropped
-    cur = list(c["p"]["funcs"])
-    for f in [g for g in c["p"]["funcs"] if g["name"] not in kept]:
+    funcs = c["p"]["funcs"]
+    if c["S"] is None and c.get("auto"):
+        return None                      # only wrong values can fail there
+    if not S or any(o not in prod for o in S) or any(o in I for o in S):
+        return None                      # outside the property: cannot fail
+    alld = {cur for f in funcs for cur, _v in pipegen.func_defaults(f) if cur not in f["bound"] and cur not in prod}
+    computable = all(cur in f["bound"] or cur in I or cur in prod or cur in alld
+                     for n in needed for f in [byname[n]] for cur, _ in f["params"])
+    if not computable:
+        return None                      # must be rejected; an answer is a genuine violation
+    if not _is_err(impl_obs):
+        # accepted, but not with exactly the needed work (or with wrong values)
+        ok_funcs = None
+        if c["kind"] == "sub" and isinstance(impl_obs, list) and impl_obs and impl_obs[0] == "ok":
+            ok_funcs = set(impl_obs[1])
+            first_out = {f["name"]: f["outs"][0] for f in funcs}
+            if ok_funcs == {first_out[n] for n in kept} and kept - needed and needed <= kept:
+                return "c11-cutoff-producer-kept"
+        return None
+    # a computable request was refused: replay the checks of subpipeline / prepare_run and name the cause
+    cur = list(funcs)
+    for f in [g for g in funcs if g["name"] not in kept]:          # the drop loop validates after every drop
         cur = [g for g in cur if g["name"] != f["name"]]
         outs_now = {o for g in cur for o in g["outs"]}
         seen = {}
@@ -250,16 +383,38 @@ def finding_id(c, impl_obs, kind):
                     continue
                 if seen.setdefault(k, v) != v:
                     return "c11-drop-loop-inconsistent-defaults"
-    if c["kind"] == "map" and any(prod.get(n) in kept for n in I):
-        return "c11-map-rejects-supplied-output-of-kept-function"
-    declared = {cur for n in kept for cur in byname[n]["defs"]} | \
-               {cur for n in kept for cur, o in byname[n]["params"] if o in byname[n]["sigd"] and cur not in byname[n]["bound"]}
-    alld = {cur for f in byname.values() for cur in f["defs"]} | \
-           {cur for f in byname.values() for cur, o in f["params"] if o in f["sigd"] and cur not in f["bound"]}
-    for n in kept:
-        for cur, _ in byname[n]["params"]:
-            if cur not in byname[n]["bound"] and cur not in I and cur not in prod and cur in alld and cur not in declared:
-                return "c11-default-declared-by-dropped-function"
+    kept_outs = {o for n in kept for o in byname[n]["outs"]}
+    if any(o not in kept_outs for o in S):                          # a requested output did not survive
+        return "c11-needed-without-provided-ancestor" if needed - kept else None
+    defaults_kept = {k for n in kept for k, _v in pipegen.func_defaults(byname[n])
+                     if k not in byname[n]["bound"] and k not in kept_outs}
+    with_defaults = defaults_kept & alld
+    new_roots = {cur for n in kept for cur, _ in byname[n]["params"]
+                 if cur not in byname[n]["bound"] and cur not in kept_outs}
+    missing = new_roots - with_defaults - I
+    if missing:
+        causes = set()
+        for m in missing:
+            readers = {n for n in kept if any(cur == m and cur not in byname[n]["bound"] for cur, _ in byname[n]["params"])}
+            if m in prod and prod[m] in needed and readers & needed:
+                causes.add("c11-needed-without-provided-ancestor")      # its (needed) producer was dropped
+            elif readers and not (readers & needed):
+                causes.add("c11-cutoff-producer-kept")                   # only a cut-off function wants it
+            elif m not in prod and m in alld:
+                causes.add("c11-default-declared-by-dropped-function")
+            else:
+                causes.add(None)
+        for cid in ("c11-needed-without-provided-ancestor", "c11-cutoff-producer-kept",
+                    "c11-default-declared-by-dropped-function"):
+            if cid in causes and None not in causes:
+                return cid
+        return None
+    if c["kind"] == "map":                                          # _validate_complete_inputs: extra inputs
+        extra = I - new_roots
+        for m in sorted(extra):
+            if m in prod and prod[m] in kept:
+                return ("c11-map-rejects-supplied-output-of-kept-function" if prod[m] in needed
+                        else "c11-cutoff-producer-kept")
     return None
 
 
@@ -270,7 +425,7 @@ def shrink(c):
         d = dict(c)
         d["p"] = {"funcs": fs[:j] + fs[j + 1:]}
         out.append(d)
-    key = "I" if c["kind"] == "sub" else "inputs"
+    key = "I" if c["kind"] == "sub" else ("inputs2" if c["kind"] == "map2" else "inputs")
     for j in range(len(c[key])):
         d = dict(c)
         d[key] = c[key][:j] + c[key][j + 1:]
